@@ -10,20 +10,21 @@ import (
 	"fmt"
 	"math"
 	"os"
+	"sort"
 	"sync"
 
 	"github.com/goghcrow/go-co/seq"
 )
 
 type Case struct {
-	Kind   string     `json:"kind"`
-	Bytes  []int      `json:"bytes,omitempty"`
-	N      int        `json:"n,omitempty"`
-	Init   []int      `json:"init,omitempty"`
-	Script [][3]int   `json:"script,omitempty"` // slice: (step, index, value); map: (step, op, entry) op 0=delete 1=insert 2=update
-	Q      []int      `json:"q,omitempty"`
-	Keys   []string   `json:"keys,omitempty"` // map entries: key codes
-	Vals   []string   `json:"vals,omitempty"`
+	Kind   string   `json:"kind"`
+	Bytes  []int    `json:"bytes,omitempty"`
+	N      int      `json:"n,omitempty"`
+	Init   []int    `json:"init,omitempty"`
+	Script [][3]int `json:"script,omitempty"` // slice: (step, index, value); map: (step, op, entry) op 0=delete 1=insert 2=update
+	Q      []int    `json:"q,omitempty"`
+	Keys   []string `json:"keys,omitempty"` // map entries: key codes
+	Vals   []string `json:"vals,omitempty"`
 }
 
 type Out struct {
@@ -149,10 +150,12 @@ func isNaN(x any) bool { f, ok := x.(float64); return ok && f != f }
 func runMap(c Case, useIter bool) (viol []string, produced int) {
 	m := map[any]any{}
 	nan := 0
+	var nanWant, nanGot []string // values stored under NaN keys (they can neither be deleted nor updated afterwards)
 	for i, k := range c.Keys {
 		m[dec(k)] = dec(c.Vals[i])
 		if k == "nan" {
 			nan++
+			nanWant = append(nanWant, fmt.Sprint(dec(c.Vals[i])))
 		}
 	}
 	initial := map[any]any{}
@@ -170,6 +173,7 @@ func runMap(c Case, useIter bool) (viol []string, produced int) {
 		produced++
 		if isNaN(k) {
 			nanSeen++
+			nanGot = append(nanGot, fmt.Sprint(v))
 		} else {
 			seen[k]++
 			if seen[k] > 1 {
@@ -228,6 +232,12 @@ func runMap(c Case, useIter bool) (viol []string, produced int) {
 	}
 	if nanSeen != nan {
 		viol = append(viol, fmt.Sprintf("NaN-keyed entries: %d produced, %d in map", nanSeen, nan))
+	} else {
+		sort.Strings(nanWant)
+		sort.Strings(nanGot)
+		if fmt.Sprint(nanWant) != fmt.Sprint(nanGot) {
+			viol = append(viol, fmt.Sprintf("NaN-keyed entries produced with values %v, the map holds %v", nanGot, nanWant))
+		}
 	}
 	return
 }
